@@ -878,3 +878,8 @@ def run(ctx: Ctx, rep: Report, tier: str) -> None:
     sub = Report("C07")
     r06_1(ctx, sub)
     rep.absorb(sub, "R07.5")
+
+
+# what the later rounds (seeding rounds 2-5, refactor twins, defect hunt) added to what the check decides
+LATER_ROUNDS = "each binding line is booked under its own ACL name, only whole `ip access-group` command lines of interface sections count, the mask-to-wildcard rewrite applies on exactly the platforms whose group members are address+mask, sections keep every line"
+EXPLANATION = EXPLANATION.replace(" Does not decide", " Later rounds added: " + LATER_ROUNDS + ". Does not decide", 1) if " Does not decide" in EXPLANATION else EXPLANATION + " Later rounds added: " + LATER_ROUNDS + "."
